@@ -18,7 +18,8 @@ CHECKS = {
         text='Component-level (recording processor) and closed-loop (on.event recorder) exploration: per-object processed sequence is a '
              'gap-free prefix of what the API delivered (all of it without cancellation; after a cancellation whatever fits into '
              'exit_timeout), per-object intervals never overlap, never more than worker_limit processors, no event waits while its '
-             'worker or a slot is free. The schedule "event arrives at the instant the idle worker retires" is a generated value. '
+             'worker or a slot is free - and a freed slot goes to a waiting object at once (never fewer than worker_limit workers of other '
+             'objects alive while an event waits). The schedule "event arrives at the instant the idle worker retires" is a generated value. '
              'Bounded exploration of schedules reachable by moving arrivals in time.',
         design_ref='5/C01'),
     'C02': dict(
@@ -26,7 +27,8 @@ CHECKS = {
                   'virtual-time simulation; oracle = history invariants over handler log x server version history',
         text='Generated-history exploration: every case runs the unmodified kopf operator against an in-memory API server '
              'in virtual time over generated handler sets, outcome scripts, lifecycles, storage configurations, '
-             'create/edit/delete histories, graceful restarts and kills at generated request ordinals; invariants I1-I4 '
+             'create/edit/delete histories, graceful restarts and kills at generated request ordinals, sub-handlers nested up to two levels, '
+             'synchronous handlers (threads serialised with virtual time), API response latency; invariants I1-I5 '
              '(no invocation on a finished record, retry/started from the record, closure exactly when all selected '
              'handlers finished, complete purge, at most one success per cycle in the undisturbed sub-domain) are checked '
              'against an independent reader of the persisted records. Bounded exploration, not a proof.',
@@ -96,7 +98,8 @@ CHECKS = {
         design_ref='5/C08'),
     'C09': dict(
         technique='property-based testing: Hypothesis-generated closed-loop histories over daemons/timers with generated stop behaviours and '
-                  'cancellation settings, label toggles, graceful and forced deletions, pauses by a generated peer record and operator exit; '
+                  'cancellation settings (asynchronous ones, and synchronous ones running in real threads that are serialised with virtual time), '
+                  'label toggles, graceful and forced deletions, pauses by a generated peer record and operator exit; '
                   'oracle = lifecycle invariants D1-D6 over enter/exit/stop-flag records vs delivery instants, plus a wall-clock stall '
                   'watchdog on every event-loop callback',
         text='At most one live instance per (object, handler); started at the delivery instant of the first matching event (+initial '
@@ -116,8 +119,8 @@ CHECKS = {
         design_ref='5/C10'),
     'C11': dict(
         technique='property-based testing: Hypothesis-generated handler declarations (errors mode x retries x timeout x backoff) and outcome '
-                  'scripts for change handlers, sub-handlers, daemons, timers and startup activities, run in the closed loop (with graceful '
-                  'restarts); oracle = the observed attempt sequence replayed against an executable reading of docs/errors.rst',
+                  'scripts (kopf\'s error classes and subclasses of them) for change handlers, sub-handlers, daemons, timers and startup activities, run in '
+                  'the closed loop (with graceful restarts, and with the handler\'s cause superseded while it waits for a retry); oracle = the observed attempt sequence replayed against an executable reading of docs/errors.rst',
         text='Per attempt sequence: retry numbers 0,1,2,..., next start >= previous end + requested delay/backoff, nothing after a final '
              'outcome (permanent error, arbitrary error in permanent/ignored mode, limits), at most retries=N invocations, no start at or '
              'after first start + timeout, a due retry does happen within the bound, a persisted record that reached the limit says '
@@ -165,8 +168,8 @@ CHECKS = {
         technique='bounded-exhaustive enumeration (itertools.product over a criteria alphabet, sampled in quick, complete in thorough) '
                   'of handler declarations x object states x causes through the public decorators, differential against an executable '
                   'reading of docs/filters.rst; plus property-based closed-loop histories (Hypothesis) with filtered handlers',
-        text='L1 compares registry.get_handlers() with an independent matcher on ~1.5 million (declaration, state, cause) combinations '
-             '(all of them in the thorough tier, a seed-dependent 1/16 sample in quick); L2 runs generated label/field/when-filtered '
+        text='L1 compares registry.get_handlers() with an independent matcher on ~4.7 million (declaration, state, cause) combinations over '
+             'an alphabet that includes falsy literals (all of them in the thorough tier, a seed-dependent hashed sample of about a quarter in quick); L2 runs generated label/field/when-filtered '
              'operators in the closed loop and checks that every invocation satisfies its criteria on the view it got and that '
              'objects matched by no handler receive no operator write. One listed known finding (value= on create/resume/delete) is '
              'identified by an executable predicate and excluded so that the rest of the space is still compared.',
@@ -185,14 +188,15 @@ CHECKS = {
         design_ref='5/C16'),
     'C17': dict(
         technique='model-based property testing: Hypothesis-generated closed-loop histories over two resource kinds (creations before '
-                  'and after the start, edits of per-object index-result plans with colliding keys, label toggles, deletions, '
-                  're-creations, slow listings, slow index functions, stream breaks, restarts); oracle = a dictionary reference model '
+                  'and after the start, edits of per-object index-result plans with colliding and falsy keys/values, label toggles, deletions, '
+                  're-creations, slow listings per (kind, namespace) for cluster-wide operators and operators serving two namespaces, slow index '
+                  'functions, stream breaks, restarts); oracle = a dictionary reference model '
                   'written from docs/indexing.rst, folded over the observed indexing passes and compared with every index snapshot any '
                   'handler was given; plus a start-up gate invariant against the initial listings',
         text='Every snapshot of every index seen by any handler equals the documented content for the passes made so far (latest '
              'results of matching live objects; removal on deletion, filter mismatch, temporary/permanent error, with exclusion '
              'for the delay / forever; retention on None and on ignored errors); index functions are (not) invoked exactly when '
-             'documented; no change handler, timer or daemon starts before every indexed kind was listed and each listed object '
+             'documented; no change handler, timer or daemon starts before every indexed kind was listed in every served namespace and each listed object '
              'went through an indexing pass. Bounded exploration.',
         design_ref='5/C17'),
     'C18': dict(
@@ -201,7 +205,7 @@ CHECKS = {
                   'serve_admission_request(); oracles = reference selection predicate, error-specificity order, and differential '
                   'patch semantics (own RFC 6902 applier on the returned patch vs own RFC 7386 merge of the requested changes + fns)',
         text='Generated-input exploration of the whole admission entry point (selection by id/type hint, operation/DELETE rule, '
-             'subresource, filters; allowed/denied, message and code of the most specific error, warnings order; patch '
+             'subresource, filters; allowed/denied, message and code of the most specific error - raised as kopf\'s classes or as subclasses of them -, warnings order; patch '
              'equivalence up to empty mappings). Bounded exploration.',
         note='trusted base: kopfsim/rfc.py (RFC 7386/6902); hinted requests respect the hinted handler\'s operations (as the API '
              'server guarantees), see DESIGN 5/C18',
@@ -209,7 +213,8 @@ CHECKS = {
     'C19': dict(
         technique='property-based testing: Hypothesis-generated closed-loop histories (object changes in several namespaces and of a '
                   'cluster-scoped kind, namespaces and a CRD appearing/disappearing, stream breaks and in-stream faults at generated '
-                  'positions, bookmarks, 410 expiry, 429 on list/watch, server/client/inactivity timeouts, unknown events and ERRORs, a '
+                  'positions, bookmarks, 410 expiry, 429 on list/watch, server/client/inactivity timeouts, unknown events and ERRORs, resource versions '
+                  'that start below/at a power of ten, a '
                   'higher-priority peer appearing/vanishing, and the garbage-collection schedule); oracle = protocol, delivery, pause and '
                   'coverage invariants over the API model\'s request and stream logs and the on.event invocations',
         text='Every watch resumes from the version of the last event/bookmark its predecessor consumed or from the preceding list; a '
@@ -220,7 +225,7 @@ CHECKS = {
         design_ref='5/C19'),
     'C20': dict(
         technique='property-based testing: Hypothesis-generated closed-loop runs (startup/cleanup handler scripts with retry limits and '
-                  'durations, slow change handlers, daemons with staged termination, timers, peering on/off, objects before and during the '
+                  'durations, slow change handlers, daemons with staged termination, timers, peering on/off, API response latency, objects before and during the '
                   'run, events queued behind a slow handler) with one terminating trigger at a generated instant (stop flag, cancellation, '
                   'unknown ERROR in the CRD stream, unknown ERROR in the served resource\'s stream, none); oracle = ordering/outcome '
                   'invariants over the global order of handler calls, API requests, stream intervals and the run call\'s outcome',
